@@ -580,6 +580,14 @@ def _pyexpr(e, p, t, xc):
         return p[v]
     if k == "c":
         return xc[min(int(v), len(xc) - 1)]
+    if k == "pw":
+        xv = _pyexpr(v[0], p, t, xc)
+        bps = [_pyexpr(b, p, t, xc) for b in v[1]]
+        vals = [_pyexpr(b, p, t, xc) for b in v[2]]
+        return vals[min(sum(1 for b in bps if b <= xv), len(vals) - 1)]
+    if k == "lin":
+        xv = _pyexpr(v[0], p, t, xc)
+        return float(np.interp(xv, [_pyexpr(b, p, t, xc) for b in v[1]], [_pyexpr(b, p, t, xc) for b in v[2]]))
     a, b = _pyexpr(v[0], p, t, xc), _pyexpr(v[1], p, t, xc)
     return {"+": a + b, "-": a - b, "*": a * b, "/": a / b if b else float("nan")}[k]
 
@@ -789,9 +797,113 @@ def c10(m, o):
     return {"checks": checks, "violations": viol[:10]}
 
 
+def _strip(c, sname):
+    if c is None:
+        return None
+    return (c.name, tuple((k, v) for k, v in c.strata.items() if k != sname))
+
+
+def _ident(c):
+    return None if c is None else (c.name, tuple(c.strata.items()))
+
+
+def c04(m, o):
+    """the last stratification of the program: copies and their weights recomputed from the documented rules,
+    starting from the model built without that stratification"""
+    import impl
+    from fractions import Fraction
+    prog = o["program"]
+    p = {k: float(Fraction(v)) for k, v in (o.get("params") or {}).items()}
+    t = float(Fraction(o.get("t", "1")))
+    viol, checks = [], 0
+    ops = prog["ops"]
+    last = max(i for i, x in enumerate(ops) if x["op"] == "strat")
+    st = ops[last]
+    before, err, why = impl.build(dict(prog, ops=ops[:last] + [x for x in ops[last + 1:] if x["op"] == "pop"], obs=[]))
+    after, err2, why2 = impl.build(dict(prog, ops=ops[:last + 1], obs=[]))
+    if err is not None or err2 is not None:
+        return {"checks": 0, "violations": []}
+    before.finalize()
+    after.finalize()
+    nb = len(before.compartments)
+    na = len(after.compartments)
+    xb, xa = np.linspace(1.0, 2.0, nb), np.linspace(1.0, 2.0, na)
+    strata = [str(s_) for s_ in st["strata"]]
+    if st["kind"] == "age":
+        strata = [str(v) for v in sorted(int(s_) for s_ in strata)]
+    n = len(strata)
+    scomps = set(st["comps"])
+    sname = st["name"]
+    declared = {}
+    for fn, adjs, sf, df in st.get("fadj", []):
+        declared.setdefault(fn, []).append((adjs, sf or {}, df or {}))
+    expected = []
+    for f in before.flows:
+        kind = type(f).__name__
+        w = flow_weight(f, p, t, xb)
+        src_s = bool(f.source) and f.source.name in scomps
+        dst_s = bool(f.dest) and f.dest.name in scomps
+        entry, exit_ = (f.source is None), (f.dest is None)
+        aff = dst_s if entry else (src_s if exit_ else (src_s or dst_s))
+        if not aff:
+            expected.append((f.name, kind, _ident(f.source), _ident(f.dest), w))
+            continue
+        user = None
+        for adjs, sf, df in declared.get(f.name, []):
+            if (not sf or not f.source or _contains(f.source.strata, sf)) and (not df or not f.dest or _contains(f.dest.strata, df)):
+                user = adjs
+        birth_age = kind in ("CrudeBirthFlow", "ReplacementBirthFlow") and st["kind"] == "age"
+        for s_ in strata:
+            if birth_age and s_ != "0":
+                continue
+            src = None if f.source is None else ((f.source.name, tuple(f.source.strata.items()) + ((sname, s_),)) if src_s else _ident(f.source))
+            dst = None if f.dest is None else ((f.dest.name, tuple(f.dest.strata.items()) + ((sname, s_),)) if dst_s else _ident(f.dest))
+            wc = w
+            conserve = False
+            if user is not None:
+                a = user.get(s_)
+                if a is not None:
+                    (k_, e_), = a.items()
+                    v_ = _pyexpr(e_, p, t, xa)
+                    wc = v_ if k_ == "ovr" else w * v_
+            elif entry and not birth_age:
+                wc = w / n
+            elif (not entry and not exit_) and dst_s and not src_s and st["kind"] != "strain":
+                wc = w / n
+                conserve = True
+            if kind == "AbsoluteFlow" and n > 1 and not conserve:
+                wc = wc / n
+            expected.append((f.name, kind, src, dst, wc))
+    got = [(f.name, type(f).__name__, _ident(f.source), _ident(f.dest), flow_weight(f, p, t, xa)) for f in after.flows]
+    got_main, got_extra = got[:len(expected)], got[len(expected):]
+    checks += 1
+    if [g[:4] for g in got_main] != [e[:4] for e in expected]:
+        viol.append("copies after stratification %s: %s, prescribed: %s" % (sname, [g[:4] for g in got_main][:6], [e[:4] for e in expected][:6]))
+    else:
+        for g, e in zip(got_main, expected):
+            checks += 1
+            if abs(g[4] - e[4]) > 1e-9 * (1 + abs(e[4])):
+                viol.append("weight of copy %s %s->%s is %.10g, prescribed %.10g" % (g[0], g[2], g[3], g[4], e[4]))
+    # ageing flows
+    if st["kind"] == "age":
+        ages = [int(s_) for s_ in strata]
+        exp_age = []
+        for a, b in zip(ages, ages[1:]):
+            for c in before.compartments:
+                exp_age.append((c.name, tuple(c.strata.items()) + ((sname, str(a)),), tuple(c.strata.items()) + ((sname, str(b)),), 1.0 / (b - a)))
+        got_age = [(g[2][0], g[2][1], g[3][1], g[4]) for g in got_extra]
+        checks += 1
+        if [(a_[0], a_[1], a_[2]) for a_ in got_age] != [(a_[0], a_[1], a_[2]) for a_ in exp_age] or \
+                any(abs(x_[3] - y_[3]) > 1e-12 for x_, y_ in zip(got_age, exp_age)):
+            viol.append("ageing flows %s, prescribed %s" % (got_age[:4], exp_age[:4]))
+    elif got_extra:
+        viol.append("unexpected extra flows after stratification: %s" % [g[:4] for g in got_extra][:4])
+    return {"checks": checks, "violations": viol[:10]}
+
+
 ORACLES = {"c01": c01, "c02": c02}
 MODEL_ORACLES = {"c02_traj": c02_traj, "c13": c13, "c12": c12, "c12_dates": c12_dates,
-                 "c07": c07, "c07_closed": c07_closed, "c16": c16, "c14": c14, "c08": c08, "c09": c09, "c10": c10}
+                 "c07": c07, "c07_closed": c07_closed, "c16": c16, "c14": c14, "c08": c08, "c09": c09, "c10": c10, "c04": c04}
 
 
 def run_oracle(m, o):
